@@ -1,7 +1,7 @@
 (* The real-number instance of Num: the "exact result" the formula and derivative theorems are
    about. Comparisons are the classical decisions of R (not computable; this instance is only
-   reasoned about, never evaluated). nneginf / nfmin have no real counterpart and are set to 0:
-   theorems over NumR that involve them (soft-max shift, pooling start value) say so. *)
+   reasoned about, never evaluated). nneginf has no real counterpart and is set to 0 (theorems over
+   NumR that involve it, the soft-max shift, say so); nfmin is the real number f32::MIN. *)
 From NV Require Import Prelude Num.
 Require Import Reals.
 From Flocq Require Import Raux.
@@ -16,7 +16,7 @@ Definition NumR : Num := {|
   nofZ := IZR;
   nnzero := 0;
   nneginf := 0;
-  nfmin := 0;
+  nfmin := IZR (-340282346638528859811704183484516925440);
   nadd := Rplus; nsub := Rminus; nmul := Rmult; ndiv := Rdiv;
   nneg := Ropp; nabs := Rabs; nsqrt := sqrt;
   nexp := exp; nln := ln; ntanh := tanh; ncosh := cosh;
